@@ -184,8 +184,9 @@ class Req:
 class Resp:
     """what the fake server answers: transport=False -> URLError before any response; status != 200 -> HTTPError
     raised by urllib AFTER the cookie processor saw the response."""
-    def __init__(self, body=b"", cookies=(), status=200, transport=True):
+    def __init__(self, body=b"", cookies=(), status=200, transport=True, set_cookie=()):
         self.body, self.cookies, self.status, self.transport = body, list(cookies), status, transport
+        self.set_cookie = list(set_cookie)        # complete Set-Cookie header values (attributes included)
 
 
 _TLS_CTX = None
@@ -219,6 +220,8 @@ class FakeNet:
         h["Content-Type"] = "application/x-ofx"
         for k, v in resp.cookies:
             h["Set-Cookie"] = "%s=%s; Path=/" % (k, v)
+        for line in resp.set_cookie:
+            h["Set-Cookie"] = line
         r = urllib.response.addinfourl(io.BytesIO(resp.body), h, req.full_url, resp.status)
         r.msg = "OK" if resp.status == 200 else "ERR"
         return r
